@@ -43,7 +43,7 @@ MANIFEST = dict(
           "detection and a final sequential-equivalence check."),
     note=("Data-race freedom in the Go memory model sense is NOT decided (a TLA+ model has atomic actions); the thorough tier "
           "does not use the race detector for the verdict (a one-off -race run of the stress is summarised in DESIGN.md section 5). "
-          "One writer stream per index in forced schedules; metrics segments are covered by C08/C09 rotation scenarios."),
+          "One writer stream per index in forced schedules. The metrics store has its own model (spec/MetricsVisibility.tla) and a stress binding (checks/c11_metrics.py), no forced schedules."),
     design_ref="DESIGN.md 4/C11",
 )
 
@@ -280,7 +280,9 @@ def run(chk):
 
     import c11_stress
     import c11_twoindex
+    import c11_metrics
     c11_twoindex.run(chk, binary)
+    c11_metrics.run(chk, binary)
     c11_stress.run(chk, binary)
     chk.assumptions += [
         "events are ingested with consecutive ids, so 'flushed before the search began' is a prefix 1..lo",
